@@ -139,7 +139,8 @@ def np_zeros(interp, name, args, kw, st, node):
     term = T(base, *shape_terms(dims, shape_arg_terms(b["shape"]))) if dims is not None else T(base, b["shape"].term)
     dyn = None
     if tag:
-        term = T("astype", term, tag) if isinstance(tag, str) else T("astype_dyn", term, tag[1])
+        # (a block of zeros is a block of zeros in every dtype: only what is stored into it later can be truncated)
+        term = T("astype", term, tag) if isinstance(tag, str) else (term if base == "zeros" else T("astype_dyn", term, tag[1]))
         if not isinstance(tag, str):
             dyn = ("dyn", tag[1])  # the buffer has the dtype of caller data: what is stored into it may be truncated
             tag = None
@@ -1351,6 +1352,12 @@ def _stack(interp, name, args, kw, st, node):
                 if not ok:
                     interp.event("shape-conflict", node, st, what=base, a=tuple(shs[0]), b=tuple(shs[-1]))
                 nsh = tuple(tot if i == ax else shs[0][i] for i in range(r))
+                # a block of extent zero along the joining axis contributes nothing
+                keep_ = [p for p, s in zip(parts, shs) if not (s[ax].is_const() and s[ax].c == 0)]
+                if keep_ and len(keep_) < len(parts):
+                    parts = keep_
+                    if len(parts) == 1:
+                        return fresh_arr(parts[0].term, nsh, labels, parts[0].extra if isinstance(parts[0].extra, str) else None)
         term = T("stack", const(ax) if isinstance(ax, int) else unk("ax"), *[p.term for p in parts])
         return fresh_arr(term, nsh, labels)
     # symbolic sequence (comprehension or list of unknown length)
